@@ -126,6 +126,21 @@ class TRun(Run):
                 elif i not in fired_at and tstate not in TERMINAL and self.tick_scans():
                     # due rules fire at this tick: in every model the first reading of the tick is before the limit
                     self.oblig(t_lo - start < lim, "timeout:not-fired-when-due:unit=%s" % on[-1], "rule %s did not fire at a tick past its limit (%d ms) while the task was open" % (on, lim))
+        if self.cfg.oracles:
+            # the flow oracles (C03) on histories with fired timeout rules: check, then answer every open interrupt (handler acts included)
+            self.at_quiescence("events")
+            n = 0
+            while n < 8:
+                irqs = self.open_irqs()
+                if not irqs or self.terminal_events():
+                    break
+                n += 1
+                t = irqs[0]
+                occ = [x["tid"] for x in self.tasks() if x["nid"] == t["nid"]].index(t["tid"])
+                W.action(self.pid, t["tid"], "Next", {})
+                self.log.append(dict(event="answer-any", answer=t["nid"], occurrence=occ))
+                W.drain()
+                self.at_quiescence("answer%d" % n)
         if len(self.res.samples) < 3:
             self.res.samples.append(dict(scenario=self.name, events=[e["event"] for e in self.log], decisions=list(I.path.taken)))
 
@@ -147,14 +162,16 @@ class TRun(Run):
         m = I.model()
         model = {k: str(m.eval(v, model_completion=True)) for k, v in self.sym.items()} if m is not None else {}
         self.res.violations.append(Violation(self.prop, role, desc, self.name, dict(decisions=list(I.path.taken), events=[e["event"] for e in self.log], rules=self.rules,
-                                                                                     on_step=self.on_step, start_var=self.start_var, ev_reads=list(self.ev_reads)), model, detail))
+                                                                                     on_step=self.on_step, start_var=self.start_var, ev_reads=list(self.ev_reads), log=list(self.log)), model, detail))
 
 
-def confirm(v):
+def confirm(v, oracles=()):
     """Replay on the real engine with a controlled clock offset and manual ticks."""
     from . import replay
     d = v.decisions
     rules, on_step, events = d["rules"], d["on_step"], d["events"]
+    extra = [e for e in d.get("log", []) if e.get("event") == "answer-any"]
+    events = [e for e in events if e != "answer-any"]
     m = v.model or {}
     # the clock offset of every event = (model reading inside the event) - (reading that stamped the task's start)
     model = model_for(rules, on_step)
@@ -171,11 +188,25 @@ def confirm(v):
         else:
             steps.append({"op": "clock", "offset": off})
             steps.append({"op": "action", "kind": "next", "nid": "a1", "occurrence": 0, "options": {}})
+    for e in extra:
+        steps.append({"op": "action", "kind": "next", "nid": e["answer"], "occurrence": e.get("occurrence", 0), "options": {}})
     sc = {"config": {"keep_processes": True, "tick_interval_secs": 100000}, "threads": 2, "models": [model], "steps": steps, "known_nids": sorted(replay.node_ids(model))}
     out = replay.run(sc)
     if "error" in out:
         return None, out
     obs = replay.normalise(out)
+    if oracles:
+        from .flow import ReplayRun
+        found = []
+        views = [dict(obs, procs=sn["procs"], messages=obs["messages"][: sn["nmsg"]], events=obs["events"][: sn["nevents"]]) for sn in obs["snapshots"] if sn["procs"]] + [obs]
+        for view in views:
+            rr = ReplayRun("timeout-replay", Cfg(oracles=oracles), v.prop, view, model)
+            for o in oracles:
+                f = getattr(rr, "q_" + o, None)
+                if f:
+                    f("replay")
+            found += [r for r, _ in rr.found]
+        return (v.role in found), dict(roles=sorted(set(found)), tasks=[(t["nid"], t["state"]) for t in (obs["procs"][0]["tasks"] if obs["procs"] else [])])
     tasks = obs["procs"][0]["tasks"] if obs["procs"] else []
     roles = set()
     for i, on in enumerate(rules):
@@ -244,7 +275,7 @@ def run_rules(I, rules, on_step, cfg_kw, prop):
             continue
         if len(seen) >= 6:
             continue
-        okc, info = confirm(v)
+        okc, info = confirm(v, cfg.oracles)
         v.confirmed, v.replay = okc, info
         seen[v.role] = (okc, info)
     return res
